@@ -77,3 +77,20 @@ ENTRY["monitor_sigs"] = ENTRY["monitor_sigs"] + [m for m in _ls.MONITOR_SIGS if 
 ENTRY["trusted_base"] = ENTRY["trusted_base"] + _ls.TRUSTED_BASE
 ENTRY["assumptions"] = ENTRY["assumptions"] + _ls.ASSUMPTIONS
 ENTRY["level_text"] += _ls.LEVEL_TEXT
+
+# Fifth session: the per-version JSON codecs of definition and lock (cluster/definition.go, lock.go, distvalidator.go,
+# operator.go, deposit.go, registration.go, helpers.go) — last clause of C12 ("decoding then re-encoding a file never changes
+# its hashes"): translator T-jsonmap regenerates, for every version, the field transfers of every marshal / unmarshal function
+# (JSON leaf, in-memory leaf, conversion, list shape, guards); Model/JsonMap.lean gives them semantics, Props/C12JsonMap.lean
+# proves the round-trip theorems for every table accepted by the decidable TableOk and discharges the regenerated table by
+# decide (every_version_ok, hashed_fields_transferred against the regenerated SSZ schemas); stream jsonmap (real MarshalJSON /
+# UnmarshalJSON of every version, leaf by leaf against the model's prediction).
+from vlib import snippet_C12jsonmap as _jm
+ENTRY["go_tools"] = ENTRY.get("go_tools", []) + _jm.GO_TOOLS
+ENTRY["translators"] = ENTRY.get("translators", []) + _jm.TRANSLATORS
+ENTRY["streams"] = ENTRY["streams"] + [_jm.STREAM]
+ENTRY["lean_props_extra"].append(_jm.EXTRA_LEAN)
+ENTRY["monitor_sigs"] = ENTRY["monitor_sigs"] + [m for m in _jm.MONITOR_SIGS if m not in ENTRY["monitor_sigs"]]
+ENTRY["trusted_base"] = ENTRY["trusted_base"] + _jm.TRUSTED_BASE
+ENTRY["assumptions"] = ENTRY["assumptions"] + _jm.ASSUMPTIONS
+ENTRY["level_text"] += _jm.LEVEL_TEXT
